@@ -69,6 +69,9 @@ type FS struct {
 	WalkReverse bool
 	// NoJournal turns journalling off (set-up phases)
 	NoJournal bool
+	// SyncMarks[i] = len(Journal) when the i-th fsync was issued, SyncPaths[i] its file (symbolic engine only)
+	SyncMarks []int
+	SyncPaths []string
 }
 
 var ErrInjected = errors.New("injected I/O failure")
@@ -357,7 +360,10 @@ func (h *MemHandle) Sync() error {
 	if h.closed {
 		return fs.ErrClosed
 	}
-	h.fs.journal(Op{Kind: OpFsync, Path: h.n.path})
+	// fsync is not a mutation: it is recorded as a mark (journal length at the time), so that the journal
+	// has the same length natively, where fsync cannot be observed through the writer seam
+	h.fs.SyncMarks = append(h.fs.SyncMarks, len(h.fs.Journal))
+	h.fs.SyncPaths = append(h.fs.SyncPaths, h.n.path)
 	return nil
 }
 
@@ -727,3 +733,73 @@ func (f *FS) Snapshot() *FS {
 
 // Activate makes this file system the one the redirects point to (after CrashImage).
 func (f *FS) Activate() { f.install() }
+
+// ---- native journalling (crash images natively): the harness reports the file-system calls it makes
+// through seams the code under test offers (writer factories); see recordio.VJournaledWriter ----
+
+func (f *FS) NoteCreate(p string) {
+	if !f.sym {
+		f.journal(Op{Kind: OpCreate, Path: p})
+	}
+}
+
+func (f *FS) NoteWrite(p string, off int64, b []byte) {
+	if !f.sym {
+		f.journal(Op{Kind: OpWrite, Path: p, Off: off, Data: append([]byte{}, b...)})
+	}
+}
+
+// NativeCrashImage materialises the first k journalled operations in a fresh temporary directory
+// (paths are re-rooted from f.Root to the new root) and returns a file system rooted there.
+func (f *FS) NativeCrashImage(k int, dirs []string) *FS {
+	d, err := os.MkdirTemp("", "verif-img-")
+	if err != nil {
+		panic(err)
+	}
+	img := &FS{Root: d, FailWriteAt: -1}
+	reroot := func(p string) string { return filepath.Join(d, strings.TrimPrefix(p, f.Root)) }
+	for _, dir := range dirs {
+		os.MkdirAll(reroot(dir), 0o777)
+	}
+	for i := 0; i < k && i < len(f.Journal); i++ {
+		op := f.Journal[i]
+		switch op.Kind {
+		case OpCreate:
+			fh, err := os.OpenFile(reroot(op.Path), os.O_CREATE|os.O_WRONLY, 0o666)
+			if err == nil {
+				fh.Close()
+			}
+		case OpWrite:
+			fh, err := os.OpenFile(reroot(op.Path), os.O_CREATE|os.O_WRONLY, 0o666)
+			if err == nil {
+				fh.WriteAt(op.Data, op.Off)
+				fh.Close()
+			}
+		case OpMkdir:
+			os.MkdirAll(reroot(op.Path), 0o777)
+		case OpRename:
+			os.Rename(reroot(op.Path), reroot(op.Path2))
+		case OpUnlink, OpRmdir:
+			os.Remove(reroot(op.Path))
+		case OpTruncate:
+			os.Truncate(reroot(op.Path), op.Size)
+		}
+	}
+	return img
+}
+
+// Image returns the crash image after k journalled operations in either mode. dirs are directories
+// that exist from the start (created before journalling began).
+func (f *FS) Image(k int, base *FS, dirs []string) *FS {
+	if f.sym {
+		img := f.CrashImage(k, base)
+		img.Activate()
+		return img
+	}
+	return f.NativeCrashImage(k, dirs)
+}
+
+// Rebase maps a path of f to the same relative path in img.
+func (f *FS) Rebase(img *FS, p string) string {
+	return filepath.Join(img.Root, strings.TrimPrefix(p, f.Root))
+}
